@@ -473,11 +473,7 @@ func (x *Exec) applyContract(fr *Frame, st *State, c *Contract, sig *types.Signa
 	for i, n := range names {
 		env[n] = args[i]
 	}
-	short := key
-	if i := strings.LastIndex(short, "."); i >= 0 && !strings.HasPrefix(short[i:], ".(") {
-		short = key[strings.Index(key, ".")+1:]
-	}
-	short = strings.TrimPrefix(short, "iface:")
+	short := shortKey(key)
 	site := x.callSiteOrd(fr.fn, ins, short)
 	pfx := ""
 	if fr.depth > 0 {
@@ -501,6 +497,9 @@ func (x *Exec) applyContract(fr *Frame, st *State, c *Contract, sig *types.Signa
 		}
 		x.oblige(st, "pre", fmt.Sprintf("%spre:%s@%d#%s", pfx, short, site, strings.TrimPrefix(rq.Name(), "requires#")), props, t, "precondition of "+short+": "+rq.Text, posStr(x.prog.fset, ins.Pos()))
 		st.assume(t)
+	}
+	if fr.depth == 0 {
+		x.propagationBeforeCall(st, short, site, posStr(x.prog.fset, ins.Pos()))
 	}
 	x.checkTypeInvs(fr, st, "before call of "+short)
 	st.dirty = nil
@@ -541,7 +540,10 @@ func (x *Exec) applyContract(fr *Frame, st *State, c *Contract, sig *types.Signa
 		}
 		st.assume(ev2.evalBool(en.Text))
 	}
-	st.log = append(st.log, LogEntry{Callee: short, Args: args, Res: res})
+	st.log = append(st.log, LogEntry{Callee: short, Args: args, Res: res, Depth: fr.depth})
+	if fr.depth == 0 {
+		x.propagationAfterCall(st, short, res)
+	}
 	k(st, fr, res)
 }
 
@@ -609,6 +611,8 @@ func (x *Exec) applyModifies(ev *specEnv, st *State, items []string) {
 		switch {
 		case it == "everything":
 			x.havoc(st, true, nil)
+		case strings.HasPrefix(it, "allbut "):
+			x.havocExcept(st, true, nil, x.frameSet(strings.TrimSpace(strings.TrimPrefix(it, "allbut ")), ev.c))
 		case strings.HasPrefix(it, "class "):
 			x.havoc(st, false, []string{strings.TrimSpace(strings.TrimPrefix(it, "class "))})
 		case strings.HasPrefix(it, "owned "):
@@ -689,4 +693,26 @@ func (x *Exec) ownedClasses(name string, c *Contract) []string {
 	}
 	fail("owned %s: no such field", name)
 	return nil
+}
+
+// frameSet expands a named frame set (//@ frameset name = a, b, c) or a literal comma list of class prefixes.
+func (x *Exec) frameSet(name string, c *Contract) []string {
+	var out []string
+	for _, part := range strings.Fields(strings.ReplaceAll(name, ",", " ")) {
+		if fs, ok := x.prog.specs.FrameSets[part]; ok {
+			out = append(out, fs...)
+		} else {
+			out = append(out, part)
+		}
+	}
+	return out
+}
+
+// shortKey: contract key without the iface:/functype: marker and the package qualifier.
+func shortKey(key string) string {
+	s := strings.TrimPrefix(strings.TrimPrefix(key, "iface:"), "functype:")
+	if i := strings.Index(s, "."); i >= 0 && !strings.HasPrefix(s, "(") {
+		s = s[i+1:]
+	}
+	return s
 }
